@@ -13,6 +13,7 @@ import (
 	"go/printer"
 	"go/token"
 	"sort"
+	"strconv"
 	"strings"
 )
 
@@ -64,9 +65,58 @@ func irType(e ast.Expr) string {
 		return "TTaskSlice"
 	case t == "map[string]*Task":
 		return "TTaskMap"
+	case mapKind(e) != "":
+		return "(TMap " + mapKind(e) + ")"
 	default:
 		return "(TOther " + coqStr(t) + ")"
 	}
+}
+
+// mapKind: map[string]bool / map[string]int / map[string]struct{} -> KBool / KInt / KUnit, else "".
+func mapKind(e ast.Expr) string {
+	mt, ok := e.(*ast.MapType)
+	if !ok || goText(mt.Key) != "string" {
+		return ""
+	}
+	switch goText(mt.Value) {
+	case "bool":
+		return "KBool"
+	case "int":
+		return "KInt"
+	case "struct{}":
+		return "KUnit"
+	}
+	return ""
+}
+
+// builtin: name is the predeclared / imported identifier (not shadowed by a local or a package function).
+func builtin(name string, sc irScope) bool { return !sc[name] && funcDecls[name] == nil }
+
+// pureCap: a capacity expression without effects: integer literals, len(x) of a local, sums of those.
+func pureCap(e ast.Expr, sc irScope) bool {
+	switch v := e.(type) {
+	case *ast.ParenExpr:
+		return pureCap(v.X, sc)
+	case *ast.BasicLit:
+		return v.Kind == token.INT
+	case *ast.BinaryExpr:
+		return v.Op == token.ADD && pureCap(v.X, sc) && pureCap(v.Y, sc)
+	case *ast.CallExpr:
+		if f, ok := v.Fun.(*ast.Ident); ok && f.Name == "len" && builtin("len", sc) && len(v.Args) == 1 && v.Ellipsis == token.NoPos {
+			id, ok := v.Args[0].(*ast.Ident)
+			return ok && sc[id.Name]
+		}
+	}
+	return false
+}
+
+// scopedIdent: e is a local variable / parameter.
+func scopedIdent(e ast.Expr, sc irScope) (string, bool) {
+	id, ok := e.(*ast.Ident)
+	if ok && sc[id.Name] {
+		return id.Name, true
+	}
+	return "", false
 }
 
 var taskFields = map[string]string{
@@ -125,6 +175,20 @@ func (tr *irTr) expr(e ast.Expr, sc irScope) string {
 	case *ast.BasicLit:
 		if s, ok := strOf(v); ok {
 			return "(EStr " + coqStr(s) + ")"
+		}
+		if v.Kind == token.INT {
+			if n, err := strconv.ParseInt(v.Value, 0, 64); err == nil && n >= 0 {
+				return "(EInt " + strconv.FormatInt(n, 10) + "%Z)"
+			}
+		}
+	case *ast.CompositeLit:
+		if goText(v.Type) == "struct{}" && len(v.Elts) == 0 {
+			return "EUnit"
+		}
+	case *ast.IndexExpr:
+		// m[k], m a local map
+		if m, ok := scopedIdent(v.X, sc); ok {
+			return "(EMapGet " + coqStr(m) + " " + tr.expr(v.Index, sc) + ")"
 		}
 	case *ast.Ident:
 		if sc[v.Name] {
@@ -245,7 +309,12 @@ func (tr *irTr) stmt(st ast.Stmt, sc irScope, fc *filterCtx, tail bool) (string,
 	switch v := st.(type) {
 	case *ast.IfStmt:
 		if v.Init != nil {
-			break
+			// if init; c {..} else {..}  ==  { init; if c {..} else {..} }  (the variables of init are scoped to the if)
+			s0, sc2 := tr.stmt(v.Init, sc, nil, false)
+			plain := *v
+			plain.Init = nil
+			s1, _ := tr.stmt(&plain, sc2, fc, tail)
+			return "(SIf (EBool true) " + coqBlk([]string{s0, s1}) + " " + coqBlk(nil) + ")", sc
 		}
 		th := coqBlk(tr.block(v.Body.List, sc, fc, tail))
 		el := coqBlk(nil)
@@ -269,6 +338,9 @@ func (tr *irTr) stmt(st ast.Stmt, sc irScope, fc *filterCtx, tail bool) (string,
 			return "SContinue", sc
 		}
 	case *ast.AssignStmt:
+		if s, sc2, ok := tr.heapAssign(v, sc); ok {
+			return s, sc2
+		}
 		if v.Tok == token.DEFINE && len(v.Lhs) == 1 && len(v.Rhs) == 1 {
 			if id, ok := v.Lhs[0].(*ast.Ident); ok && id.Name != "_" {
 				return "(SLet " + coqStr(id.Name) + " " + tr.expr(v.Rhs[0], sc) + ")", sc.with(id.Name)
@@ -299,6 +371,20 @@ func (tr *irTr) stmt(st ast.Stmt, sc irScope, fc *filterCtx, tail bool) (string,
 				}
 			}
 		}
+	case *ast.IncDecStmt:
+		// m[k]++
+		if ix, ok := v.X.(*ast.IndexExpr); ok && v.Tok == token.INC {
+			if m, ok := scopedIdent(ix.X, sc); ok {
+				return "(SMapIncr " + coqStr(m) + " " + tr.expr(ix.Index, sc) + ")", sc
+			}
+		}
+	case *ast.ExprStmt:
+		// sort.Strings(v)
+		if c, ok := v.X.(*ast.CallExpr); ok && goText(c.Fun) == "sort.Strings" && builtin("sort", sc) && len(c.Args) == 1 && c.Ellipsis == token.NoPos {
+			if x, ok := scopedIdent(c.Args[0], sc); ok {
+				return "(SSortStrs " + coqStr(x) + ")", sc
+			}
+		}
 	case *ast.RangeStmt:
 		if v.Tok != token.DEFINE {
 			break
@@ -306,6 +392,13 @@ func (tr *irTr) stmt(st ast.Stmt, sc irScope, fc *filterCtx, tail bool) (string,
 		k, kok := v.Key.(*ast.Ident)
 		if !kok {
 			break
+		}
+		if v.Value == nil && k.Name != "_" {
+			// for k := range m, m a local map
+			if m, ok := scopedIdent(v.X, sc); ok {
+				body := tr.block(v.Body.List, sc.with(k.Name), nil, false)
+				return "(SRangeKeys " + coqStr(k.Name) + " " + coqStr(m) + " " + coqBlk(body) + ")", sc
+			}
 		}
 		if v.Value == nil {
 			// for k := range G.Deps[key]
@@ -330,6 +423,106 @@ func (tr *irTr) stmt(st ast.Stmt, sc irScope, fc *filterCtx, tail bool) (string,
 		return "(SIf (EBool true) " + coqBlk(tr.block(v.List, sc, fc, tail)) + " " + coqBlk(nil) + ")", sc
 	}
 	return unknownS(st), sc
+}
+
+// heapAssign: the assignment shapes of the stateful fragment (bridge/HeapIR.v).
+//
+//	v := make(map[string]T) | v := map[string]T{}      SMakeMap
+//	v := make([]string, 0, cap)                        SMakeStrs
+//	_, ok := m[k]                                      SMapHas
+//	m[k] = e                                           SMapSet
+//	v = append(v, e)                                   SAppendStr
+func (tr *irTr) heapAssign(v *ast.AssignStmt, sc irScope) (string, irScope, bool) {
+	if v.Tok == token.DEFINE && len(v.Lhs) == 1 && len(v.Rhs) == 1 {
+		id, ok := v.Lhs[0].(*ast.Ident)
+		if !ok || id.Name == "_" {
+			return "", sc, false
+		}
+		switch r := v.Rhs[0].(type) {
+		case *ast.CompositeLit:
+			if k := mapKind(r.Type); k != "" && len(r.Elts) == 0 {
+				return "(SMakeMap " + coqStr(id.Name) + " " + k + ")", sc.with(id.Name), true
+			}
+		case *ast.CallExpr:
+			if f, ok := r.Fun.(*ast.Ident); !ok || f.Name != "make" || !builtin("make", sc) || r.Ellipsis != token.NoPos || len(r.Args) == 0 {
+				break
+			}
+			if k := mapKind(r.Args[0]); k != "" && (len(r.Args) == 1 || (len(r.Args) == 2 && pureCap(r.Args[1], sc))) {
+				return "(SMakeMap " + coqStr(id.Name) + " " + k + ")", sc.with(id.Name), true
+			}
+			if goText(r.Args[0]) == "[]string" && len(r.Args) == 3 && goText(r.Args[1]) == "0" && pureCap(r.Args[2], sc) {
+				return "(SMakeStrs " + coqStr(id.Name) + ")", sc.with(id.Name), true
+			}
+			if goText(r.Args[0]) == "[]string" && len(r.Args) == 2 && goText(r.Args[1]) == "0" {
+				return "(SMakeStrs " + coqStr(id.Name) + ")", sc.with(id.Name), true
+			}
+		}
+		return "", sc, false
+	}
+	if v.Tok == token.DEFINE && len(v.Lhs) == 2 && len(v.Rhs) == 1 {
+		a, ok1 := v.Lhs[0].(*ast.Ident)
+		b, ok2 := v.Lhs[1].(*ast.Ident)
+		ix, ok3 := v.Rhs[0].(*ast.IndexExpr)
+		if ok1 && ok2 && ok3 && a.Name == "_" && b.Name != "_" {
+			if m, ok := scopedIdent(ix.X, sc); ok {
+				return "(SMapHas " + coqStr(b.Name) + " " + coqStr(m) + " " + tr.expr(ix.Index, sc) + ")", sc.with(b.Name), true
+			}
+		}
+		return "", sc, false
+	}
+	if v.Tok == token.ASSIGN && len(v.Lhs) == 1 && len(v.Rhs) == 1 {
+		if ix, ok := v.Lhs[0].(*ast.IndexExpr); ok {
+			if m, ok := scopedIdent(ix.X, sc); ok {
+				return "(SMapSet " + coqStr(m) + " " + tr.expr(ix.Index, sc) + " " + tr.expr(v.Rhs[0], sc) + ")", sc, true
+			}
+			return "", sc, false
+		}
+		l, ok1 := scopedIdent(v.Lhs[0], sc)
+		c, ok2 := v.Rhs[0].(*ast.CallExpr)
+		if ok1 && ok2 && c.Ellipsis == token.NoPos && len(c.Args) == 2 && goText(c.Fun) == "append" && builtin("append", sc) {
+			if a0, ok := scopedIdent(c.Args[0], sc); ok && a0 == l {
+				return "(SAppendStr " + coqStr(l) + " " + tr.expr(c.Args[1], sc) + ")", sc, true
+			}
+		}
+	}
+	return "", sc, false
+}
+
+// closure translates every package function reachable by calls from the functions already in fns / tr.called.
+func (tr *irTr) closure(fns map[string]irFn) {
+	for {
+		var todo []string
+		for n := range tr.called {
+			if _, ok := fns[n]; !ok {
+				todo = append(todo, n)
+			}
+		}
+		if len(todo) == 0 {
+			return
+		}
+		sort.Strings(todo)
+		for _, n := range todo {
+			fns[n] = tr.plainFn(n)
+		}
+	}
+}
+
+// progText renders fns as Coq definitions gen_fn_<name> plus the program list `prog`.
+func progText(fns map[string]irFn, prog string) string {
+	var names []string
+	for n := range fns {
+		names = append(names, n)
+	}
+	sort.Strings(names)
+	var b strings.Builder
+	var entries []string
+	for _, n := range names {
+		id := "gen_fn_" + coqIdent(n)
+		b.WriteString("Definition " + id + " : fndef :=\n  " + fns[n].coq() + ".\n\n")
+		entries = append(entries, "("+coqStr(n)+", "+id+")")
+	}
+	b.WriteString("Definition " + prog + " : prog := [\n  " + strings.Join(entries, ";\n  ") + "].\n")
+	return b.String()
 }
 
 type irFn struct {
